@@ -8,7 +8,11 @@ RULE = ("K, four streams observed at fdtdx.Material and the list builders of fdt
         "floats, 3-tuples containing an int (ValueError), nested 3x3 with row lengths 2/3/4, mixed row/float tuples, 9-tuples, "
         "tuples of length 0,1,2,4,8,10, for a random one of the four properties, through the constructor and through "
         "aset(<property>, value); (pred) tensors that are exactly isotropic / isotropic within 1e-10 and 1e-8 relative / diagonal / "
-        "with a tiny or large off-diagonal entry / identity / zero, all predicates of Material incl. the is_all_* conjunctions; "
+        "with a tiny or large off-diagonal entry / identity / zero, plus a fixed structured set in every run (antisymmetric g/-g pairs "
+        "at each of the three index pairs with equal / unequal / zero / unit diagonal, three cancelling entries, a single off-diagonal entry "
+        "at each of the six positions with either sign and magnitudes 0.3 / 1e-9 / 1e-12 / 1e-300, diagonals around the 1e-9 tolerance); "
+        "each tensor is placed in all four properties and isotropic_property_value is checked too; Hermitian (gyrotropic) complex "
+        "permittivities are always sent through from_complex_permittivity and every Material built there is re-classified; all predicates of Material incl. the is_all_* conjunctions; "
         "(mats) dicts of 1-5 materials drawn from a small value pool so that sort keys tie on 1-4 leading entries, three list "
         "modes, all five list builders + compute_ordered_materials; (disp) dicts of 2-5 materials with 1-3 dispersive ones (Lorentz / Drude "
         "poles), distinct keys, written in shuffled (mostly non-canonical, often descending) insertion order: the rows of "
@@ -183,6 +187,43 @@ def gen_tensor(rng):
     return [rng.uniform(-2, 5) for _ in range(9)], "full"
 
 
+OFFD = (1, 2, 3, 5, 6, 7)
+PAIRS = ((1, 3), (2, 6), (5, 7))
+
+
+def structured_tensors():
+    """deterministic list, generated in every run: cancelling / antisymmetric off-diagonals, single off-diagonal entries at each
+    position with either sign, entries around the isclose tolerance, equal and unequal diagonals"""
+    out = []
+    for diag, dtag in (([2.0, 2.0, 2.0], "eqdiag"), ([2.0, 2.5, 2.0], "neqdiag"), ([0.0, 0.0, 0.0], "zerodiag"), ([1.0, 1.0, 1.0], "unitdiag")):
+        base = [diag[0], 0.0, 0.0, 0.0, diag[1], 0.0, 0.0, 0.0, diag[2]]
+        for (i, j) in PAIRS:
+            for g in (0.3, 5.0, 1e-9, 1e-12, 1e-300):
+                for sgn in (1.0, -1.0):
+                    p = list(base)
+                    p[i], p[j] = sgn * g, -sgn * g
+                    out.append((p, f"gyro-{dtag}"))
+        p = list(base)
+        p[1], p[2], p[5] = 0.4, 0.1, -0.5            # three entries cancelling without being pairwise antisymmetric
+        out.append((p, f"cancel3-{dtag}"))
+        p = list(base)
+        p[1], p[3], p[2], p[6], p[5], p[7] = 0.2, -0.2, 0.7, -0.7, -1.5, 1.5
+        out.append((p, f"gyro-all-{dtag}"))
+        for i in OFFD:
+            for g in (0.3, 1e-9, 1e-12, 1e-300):
+                for sgn in (1.0, -1.0):
+                    p = list(base)
+                    p[i] = sgn * g
+                    out.append((p, f"single-offdiag-{dtag}"))
+        p = list(base)
+        p[1], p[3] = 0.3, 0.3                          # symmetric (not cancelling)
+        out.append((p, f"sym-{dtag}"))
+    for d in (0.5e-9, 0.99e-9, 1.01e-9, 2e-9):         # diagonal entries around the relative tolerance
+        out.append(([2.0, 0.0, 0.0, 0.0, 2.0 * (1 + d), 0.0, 0.0, 0.0, 2.0], "diag-near-tol"))
+        out.append(([2.0, 0.0, 0.0, 0.0, 2.0, 0.0, 0.0, 0.0, 2.0 * (1 - d)], "diag-near-tol"))
+    return out
+
+
 def isclose_oracle(a, b):
     return a == b or abs(a - b) <= 1e-9 * max(abs(a), abs(b))
 
@@ -351,6 +392,12 @@ def gen_cplx_value(rng, allow_bad=True):
         m = [cz() if i % 4 == 0 else off() for i in range(9)]
         m = [[m[i][0] + (3.0 if i % 4 == 0 else 0.0), m[i][1]] for i in range(9)]     # diagonally dominant: invertible
         return (["T", m], "flat9") if k == 5 else (["N", [m[0:3], m[3:6], m[6:9]]], "nested")
+    if k == 8 and rng.chance(0.5):
+        e0, g = rng.uniform(1.5, 5.0), rng.choice([0.3, 0.05, 1.2])
+        (i, j) = rng.choice(list(PAIRS))
+        m = [[e0, 0.0] if q % 4 == 0 else [0.0, 0.0] for q in range(9)]
+        m[i], m[j] = [0.0, g], [0.0, -g]          # Hermitian (gyrotropic): antisymmetric real conductivity
+        return (["T", m], "hermitian9") if rng.chance(0.5) else (["N", [m[0:3], m[3:6], m[6:9]]], "hermitian-nested")
     if k == 8:
         return ["T", [cz() for _ in range(rng.choice([1, 2, 4, 8]))]], "badlen"
     if k == 9:
@@ -477,8 +524,9 @@ def run(ctx):
         post.append(("norm", case, got))
 
     # ---- predicates
-    for i in range(ctx.scale(300, 2000)):
-        p, tag = gen_tensor(rng)
+    structured = structured_tensors()
+    for i in range(len(structured) + ctx.scale(300, 2000)):
+        p, tag = structured[i] if i < len(structured) else gen_tensor(rng)
         p = [float(x) for x in p]
         case = {"stream": "pred", "tensor": p, "tag": tag}
         got, d = impl_pred(case)
@@ -538,6 +586,12 @@ def run(ctx):
     # ---- complex permittivity
     for i in range(ctx.scale(250, 1500)):
         eps, tag = gen_cplx_value(rng)
+        if i < 12:                      # Hermitian (gyrotropic) permittivities are always present
+            e0, g = 2.0 + 0.25 * i, [0.3, 0.05, 1.2][i % 3]
+            (a, b) = PAIRS[i % 3]
+            hm = [[e0, 0.0] if q % 4 == 0 else [0.0, 0.0] for q in range(9)]
+            hm[a], hm[b] = [0.0, g], [0.0, -g]
+            eps, tag = (["T", hm], "hermitian9") if i % 2 else (["N", [hm[0:3], hm[3:6], hm[6:9]]], "hermitian-nested")
         mu, mtag = (None, "default") if rng.chance(0.6) else gen_cplx_value(rng, allow_bad=rng.chance(0.2))
         case = {"stream": "cplx", "eps": eps, "mu": mu, "ref": gen_reference(rng), "tag": tag, "mu_tag": mtag}
         m, omega = impl_cplx(case)
@@ -545,7 +599,7 @@ def run(ctx):
                  ref_kind="+".join(sorted(case["ref"])) or "none", outcome="error" if m is None else "ok")
         if m is not None:
             ctx.impl_property_evals += 1
-            d = cplx_property(case, m, omega)
+            d = cplx_property(case, m, omega) or material_predicates_consistent(m)
             if d:
                 ctx.violation(case, d)
         if omega is None:
@@ -586,6 +640,32 @@ def run(ctx):
                 ctx.expect_close("cplx", case, flat, h2fs(rep[3:]), tol=1e-12)
 
 
+def material_predicates_consistent(m):
+    """every classification predicate of a Material agrees with its stored tensors (used for any Material K builds)"""
+    mm = E()["mats"]
+    flags = []
+    for pr in PROPS:
+        p = [float(x) for x in getattr(m, pr)]
+        want = pred_oracle(p)
+        iso = getattr(m, "is_isotropic_" + pr)
+        dia = getattr(m, "is_diagonally_anisotropic_" + pr)
+        if iso != want[0] or dia != want[1]:
+            return f"is_isotropic_{pr}={iso}, is_diagonally_anisotropic_{pr}={dia} but the stored tensor {tuple(p)} says {want[0]}, {want[1]}"
+        if iso and not dia:
+            return f"{pr} is reported isotropic but not diagonally anisotropic"
+        try:
+            val = mm.isotropic_property_value(tuple(p), pr)
+            if not want[0] or val != p[0]:
+                return f"isotropic_property_value({tuple(p)}) returned {val!r} for a tensor that is {'not ' if not want[0] else ''}isotropic"
+        except ValueError:
+            if want[0]:
+                return f"isotropic_property_value rejected the isotropic tensor {tuple(p)}"
+        flags.append((want[0], want[1]))
+    if m.is_all_isotropic != all(f[0] for f in flags) or m.is_all_diagonally_anisotropic != all(f[1] for f in flags):
+        return "is_all_isotropic / is_all_diagonally_anisotropic is not the conjunction over the four stored tensors"
+    return None
+
+
 def impl_pred(case):
     """all predicates of Material for the tensor placed in each property; returns model-comparable flags + oracle verdict"""
     e = E()
@@ -610,6 +690,7 @@ def impl_pred(case):
         for k, m in enumerate(ms):      # the other three properties are at their (isotropic) defaults
             if m.is_all_isotropic != want[0] or m.is_all_diagonally_anisotropic != want[1]:
                 detail = f"is_all_isotropic / is_all_diagonally_anisotropic wrong with the tensor in {PROPS[k]}"
+            detail = detail or material_predicates_consistent(m)
     return got, detail
 
 
@@ -632,7 +713,7 @@ def replay(ctx, inp):
         return "from_complex_permittivity raised on a valid invertible tensor" if exp_ok else None
     if not exp_ok:
         return "from_complex_permittivity accepted a malformed or singular tensor"
-    return cplx_property(inp, m, omega)
+    return cplx_property(inp, m, omega) or material_predicates_consistent(m)
 
 
 def cplx_expected_ok(case):
